@@ -66,10 +66,17 @@ package gonum
 //@ ensures disjoint(x, y) && alpha != 0 ==> forall(k, 0, n, same(y[start(n,incY)+k*incY], old(y[start(n,incY)+k*incY]) + alpha*old(x[start(n,incX)+k*incX])))
 //@ ensures alpha == 0 ==> forall(k, 0, n, same(y[start(n,incY)+k*incY], old(y[start(n,incY)+k*incY])))
 
-//@ func Implementation.Ddot Implementation.Sdot Implementation.Dsdot Implementation.Sdsdot props: C01(frame) C07(safety)
+//@ func Implementation.Sdot Implementation.Dsdot Implementation.Sdsdot props: C01(frame) C07(safety)
 //@ valid incX != 0 && incY != 0 && n >= 0 && vec(x, n, incX) && vec(y, n, incY)
 //@ panics iff !valid, before-writes
 //@ writes nothing
+
+// Ddot: in exact arithmetic the result is the defining sum over the addressed elements.
+//@ func Implementation.Ddot props: C01 C07(safety)
+//@ valid incX != 0 && incY != 0 && n >= 0 && vec(x, n, incX) && vec(y, n, incY)
+//@ panics iff !valid, before-writes
+//@ writes nothing
+//@ ensures [real] result == f64.dotp(x, y, n, start(n,incX), incX, start(n,incY), incY)
 
 //@ func Implementation.Dscal props: C01 C07(safety)
 //@ requires !(n < 0 && incX < 0)
@@ -101,7 +108,7 @@ package gonum
 //@ panics iff !valid, before-writes
 //@ writes a[i*lda+j] for i in 0..m, j in 0..n
 
-//@ func Implementation.Dgemv Implementation.Sgemv props: C01(frame) C07(safety)
+//@ func Implementation.Sgemv props: C01(frame) C07(safety)
 //@ let lenX = ite(tA == blas.NoTrans, n, m)
 //@ let lenY = ite(tA == blas.NoTrans, m, n)
 //@ valid flagT(tA) && m >= 0 && n >= 0 && lda >= max(1, n) && incX != 0 && incY != 0 &&
@@ -109,6 +116,20 @@ package gonum
 //@ panics iff !valid, before-writes
 //@ writes y[start(lenY,incY)+k*incY] for k in 0..lenY
 //@ reads a[i*lda+j] for i in 0..m, j in 0..n ; x[start(lenX,incX)+k*incX] for k in 0..lenX
+
+// Dgemv, NoTrans: in exact arithmetic every element of y is the defining row sum (operands in distinct
+// allocations). As in the reference implementation, m == 0 or n == 0 returns without scaling y by beta.
+// (The transposed case needs the column-accumulating kernel GemvT under a value contract: not done.)
+//@ func Implementation.Dgemv props: C01 C07(safety)
+//@ let lenX = ite(tA == blas.NoTrans, n, m)
+//@ let lenY = ite(tA == blas.NoTrans, m, n)
+//@ valid flagT(tA) && m >= 0 && n >= 0 && lda >= max(1, n) && incX != 0 && incY != 0 &&
+//@       (m == 0 || n == 0 || (ge(a, m, n, lda) && vec(x, lenX, incX) && vec(y, lenY, incY)))
+//@ panics iff !valid, before-writes
+//@ writes y[start(lenY,incY)+k*incY] for k in 0..lenY
+//@ reads a[i*lda+j] for i in 0..m, j in 0..n ; x[start(lenX,incX)+k*incX] for k in 0..lenX
+//@ ensures [real] tA == blas.NoTrans && m > 0 && n > 0 && alpha != 0 && incX == 1 && incY == 1 && y.rid != x.rid && y.rid != a.rid ==> forall(i, 0, m, y[i] == old(y[i])*beta + alpha*f64.dotp(x, a[i*lda:i*lda+n], n, 0, 1, 0, 1))
+//@ ensures [realx] tA == blas.NoTrans && m > 0 && n > 0 && alpha != 0 && y.rid != x.rid && y.rid != a.rid ==> forall(i, 0, m, y[start(m,incY)+i*incY] == old(y[start(m,incY)+i*incY])*beta + alpha*f64.dotp(x, a[i*lda:i*lda+n], n, start(n,incX), incX, 0, 1))
 
 //@ func Implementation.Dgbmv Implementation.Sgbmv props: C01(frame) C07(safety)
 //@ let lenX = ite(tA == blas.NoTrans, n, m)
